@@ -45,21 +45,31 @@ def opFieldsG (modType : String) : List (String × String) := (Generated.mod2opF
     conversion table of the model (`Xform.mod2op`, YtkModel/Decisions2.lean): same modification types,
     same patch operation for each, nil for anything else, the same fields of the operation object — Op,
     Path built from the modification's path, Value (the modification's value as a leaf) exactly where the
-    model carries one, never From; and every operation object the model's conversion builds is
-    dispatched by the model's patch.Do and passes the handler's leading checks. -/
+    model carries one, never From; the model's conversion equals the function RUN FROM the regenerated
+    case table and field table (`mod2opBy`), for all modifications; and every operation object the
+    model's conversion builds is dispatched by the model's patch.Do and passes the handler's leading
+    checks. -/
 theorem mod2op_table_matches_model :
+    Generated.mod2opTable = Xform.mod2opRowsM ∧
     pairs Generated.mod2opTable = Xform.mod2opTableM ∧
     Generated.mod2opDefault = "nil" ∧
     Generated.mod2opFields = Xform.mod2opFieldsM ∧
+    (∀ (ptr : String → Path) (m : Mod),
+      Xform.mod2opBy Generated.mod2opTable Generated.mod2opFields ptr m = some (Xform.mod2op ptr m)) ∧
     (∀ (ptr : String → Path) (m : Mod),
       (Xform.mod2op ptr m).op = Xform.opOfMod m.ty ∧ (Xform.mod2op ptr m).path = some (ptr m.path) ∧
       (Xform.mod2op ptr m).frm = none ∧
       (Xform.mod2op ptr m).value = if Xform.carriesValue m.ty then some (.leaf m.value) else none) ∧
     (∀ (ptr : String → Path) (m : Mod),
       ∃ h, handlerOf (Xform.mod2op ptr m).op = some h ∧ (Xform.mod2op ptr m).path.isSome = true ∧
-        (h.needsValue = true → (Xform.mod2op ptr m).value.isSome = true) ∧ h.needsFrom = false) :=
-  ⟨by decide +kernel, by decide +kernel, by decide +kernel, fun _ _ => ⟨rfl, rfl, rfl, rfl⟩,
-   Xform.mod2op_wellformed⟩
+        (h.needsValue = true → (Xform.mod2op ptr m).value.isSome = true) ∧ h.needsFrom = false) := by
+  have h1 : Generated.mod2opTable = Xform.mod2opRowsM := by decide +kernel
+  have h2 : Generated.mod2opFields = Xform.mod2opFieldsM := by decide +kernel
+  refine ⟨h1, by decide +kernel, by decide +kernel, h2, ?_, fun _ _ => ⟨rfl, rfl, rfl, rfl⟩,
+    Xform.mod2op_wellformed⟩
+  intro ptr m
+  rw [h1, h2]
+  exact Xform.mod2op_eq_table ptr m
 
 /-- (ii) The rule on the regenerated tables (RFC 6902 section 4 + what a diff modification means): an
     Add becomes `add`, a Change `replace`, a Delete `remove`, anything else no operation; each of these
